@@ -201,10 +201,8 @@ pub fn run(tier: Tier, seed: u64) -> i32 {
     stats.space(json!({"space": "unpacked singles", "cases": ncell * 4}));
     if tier == Tier::Thorough {
         // triples over a core of categories
-        let core: Vec<usize> = [0usize, 3, 10, 11, 13, 15]
-            .iter()
-            .flat_map(|c| (0..4).map(move |d| c * 4 + d))
-            .collect();
+        // all 20 categories x 4 directions
+        let core: Vec<usize> = (0..ncell).collect();
         let nt = core.len().pow(3);
         let nf = (nt + per - 1) / per;
         super::drive(
@@ -230,13 +228,13 @@ pub fn run(tier: Tier, seed: u64) -> i32 {
             },
             check_case,
         );
-        stats.space(json!({"space": "triples over a 6-category core", "triples": nt}));
+        stats.space(json!({"space": "all ordered triples of cells", "triples": nt}));
     }
     let classes = ["direction-required", "in-or-none", "in-or-inout", "never-an-argument", "oneway-out"];
     let all = classes.iter().all(|c| stats.outcome_count(&format!("class:{c}")) > 0);
     finish(
         &stats,
-        "every ordered pair of (type category, direction) cells over 20 category representatives (all categories the statement constrains, reached through real resolution with three supporting files) x interface oneway x method oneway patterns, plus every cell alone and (thorough) all triples over a 6-category core; the Errors located on direction keywords / at argument type starts are compared with the statement's table; distinct_nontrivial counts distinct (argument list, oneway) combinations",
+        "every ordered pair of (type category, direction) cells over 20 category representatives (all categories the statement constrains, reached through real resolution with three supporting files) x interface oneway x method oneway patterns, plus every cell alone and (thorough) all ordered triples of cells; the Errors located on direction keywords / at argument type starts are compared with the statement's table; distinct_nontrivial counts distinct (argument list, oneway) combinations",
         &[
             "category table transcribed from the statement; `void` arguments are excluded (statement silent)",
             "Errors are located by range: the direction keyword, or the empty range at the type's first token",
